@@ -46,6 +46,10 @@ def run(chk, replay=None):
     # ---------------- (M) formula sets against the definition on a toy ring, all curve points
     for cfg in ([] if dev_fast else ["Edwards_35.cfg"] + (["Edwards_77.cfg", "Edwards_221.cfg"] if thorough else [])):
         chk.add_mc(core.model_check("edwards/Edwards.tla", cfg, workers=4, timeout=1700))
+    # ---- BEGIN inductive block (growth item "ind": unbounded results, thorough tier only) ----
+    if thorough and not replay and not dev_fast:
+        _inductive(chk)
+    # ---- END inductive block ----
     # ---------------- (I) input space, (G) longest-chain scalars from the model
     shapes_p = os.path.join(w, "shapes.ndjson")
     nshapes, r = core.gen_shapes("edwards/C15Shapes.tla", "C15Shapes.cfg", shapes_p)
@@ -97,3 +101,39 @@ def run(chk, replay=None):
                         "the chain multiplications",
                         "the extended additions are judged outside their documented exceptional set (affine denominators of the dedicated "
                         "formulas vanish, e.g. P = Q)"]
+
+
+# ---- BEGIN inductive block (growth item "ind") ----
+def _inductive(chk):
+    """make_addition_chain beyond the TLC word sizes: Value(chain so far, kk) = k and 1 <= kk < M with the overflow
+    flag never raised for EVERY word modulus M (TLAPS, AddChainProofs.tla); chain length <= W/2 + 1 (2 len <= W + 3)
+    for every W in 4..64, i.e. including the 64-bit word of the code (Apalache, unbounded integers, AddChainIndApa.tla);
+    TLC link of the restatement AddChainInd.tla to AddChain.tla; counterexamples / failed proofs for the broken variants.
+    Anything unexpected here is a tool error (exit 2), never a violation."""
+    if not core.ind_enabled():
+        chk.notes.append("inductive block skipped (VERIF_NO_IND=1)")
+        return
+    ind = {"claim": "AddChainInd: mul * kk + add = k, 1 <= kk < M, no overflow of kk/2 + rop/2 + 1 inductive for every word "
+                    "modulus M >= 1 (TLAPS); LenInv => 2 len <= W + 3 (len <= W/2 + 1 for even W) inductive for every W in "
+                    "4..64 with M = 2^W (Apalache); the steps of AddChain.tla are steps of AddChainInd and its ghosts mean "
+                    "Apply(chain, ., v) = mul v + add (TLC, W = 9 and 12)",
+           "runs": []}
+    for cfg in ("MC_AddChainInd_9.cfg", "MC_AddChainInd_12.cfg"):
+        chk.add_mc(core.model_check("edwards/MC_AddChainInd.tla", cfg, workers=4, timeout=900))
+    ind["runs"].append(core.ind_expect(core.tlapm("edwards/AddChainProofs.tla", timeout=900), "ok", "AddChainProofs"))
+    ind["runs"].append(core.ind_expect(core.tlapm("edwards/AddChainProofsBad.tla", timeout=900), "failed", "AddChainProofsBad"))
+    A = "edwards/AddChainIndApa.tla"
+    for kw, want in ((dict(cinit="CInitAny", init="Init", inv="IndInv", length=0), "ok"),            # base, W in 4..64
+                     (dict(cinit="CInitAny", init="IndInit", inv="IndInv", length=1), "ok"),         # step, W in 4..64
+                     (dict(cinit="CInit64", init="IndInit", inv="IndInv", length=1), "ok"),          # step, the code's word
+                     # the code before the fix: (kk + rop) / 2 in the word raises the overflow flag
+                     (dict(cinit="CInit64", init="IndInit", next="NextSum", inv="IndInv", length=1), "counterexample"),
+                     # the length the code's comment claimed (W/2) is exceeded: reachable counterexample for W = 4
+                     (dict(cinit="CInit4", init="Init", inv="LenBoundClaimed", length=8), "counterexample")):
+        ind["runs"].append(core.ind_expect(core.apalache(A, timeout=900, **kw), want, "AddChainIndApa %s" % kw))
+    chk.cov["inductive"] = ind
+    chk.notes.append("inductive: chain value / no overflow proved for every word modulus (tlapm, %d obligations, %.0fs); "
+                     "length bound inductive for W = 4..64 (apalache)" % (ind["runs"][0]["obligations"], ind["runs"][0]["wall_s"]))
+    chk.assumptions.append("tlapm (Z3, Zenon, Isabelle, PTL back ends) and apalache-mc/Z3 for the unbounded addition-chain "
+                           "invariants; AddChainInd.tla restates AddChain.tla (linked by TLC: MC_AddChainInd.tla)")
+# ---- END inductive block ----
